@@ -378,7 +378,10 @@ BLOCKS = [
      '|<xsl:for-each select="key(\'kt\',%d)"><xsl:value-of select="%s"/>,</xsl:for-each>' % (CODE_W, CODE_W, TR % ".")),
     ("number", "",
      '<xsl:for-each select="//text() | //*"><xsl:number level="any" count="text()"/>.<xsl:number level="single" count="node()"/>.'
-     '<xsl:number level="multiple" count="node()" format="1.1"/>.<xsl:number/>.<xsl:number level="any" count="node()" from="b"/>;</xsl:for-each>'),
+     '<xsl:number level="multiple" count="node()" format="1.1"/>.<xsl:number/>.<xsl:number level="any" count="*"/>.<xsl:number level="single" count="node()" from="b"/>.<xsl:number level="multiple" count="text()|c" from="a"/>;</xsl:for-each>'),
+    # the class of the known finding K-C13-2 (never sampled by the generators; see props/C13.py)
+    ("number-any-from", "",
+     '<xsl:for-each select="//text() | //*"><xsl:number level="any" count="node()" from="b"/>.<xsl:number level="any" count="text()" from="a|c"/>.<xsl:number level="any" from="*"/>;</xsl:for-each>'),
     ("copy",
      '<xsl:template match="@*|node()" mode="id"><xsl:copy><xsl:apply-templates select="@*|node()" mode="id"/></xsl:copy></xsl:template>',
      '<c1><xsl:copy-of select="/"/></c1><c2><xsl:copy-of select="//b"/></c2><c3><xsl:copy-of select="//text()"/></c3><c4><xsl:copy-of select="//a/node()[1]"/></c4>'
@@ -413,7 +416,8 @@ BLOCKS = [
      '<xsl:value-of select="count($t)"/>[<xsl:value-of select="$t"/>]|<xsl:for-each select="//*"><xsl:value-of select="%s"/>,</xsl:for-each>'
      % (TR % ".", TR % "text()")),
 ]
-BLOCK_NAMES = [b[0] for b in BLOCKS]
+KNOWN_CLASS_BLOCKS = {"number-any-from": "K-C13-2"}
+BLOCK_NAMES = [b[0] for b in BLOCKS if b[0] not in KNOWN_CLASS_BLOCKS]
 
 
 def main_top_level(block_names, method="xml"):
